@@ -38,7 +38,7 @@ goalign split -i align.phylip --partition partition.txt
 		}
 
 		align := <-aligns.Achan
-		if aligns.Err != nil {
+		if align == nil {
 			err = aligns.Err
 			io.LogError(err)
 			return
